@@ -403,7 +403,9 @@ class IMAPConnection:
                     resp = ResponseNo(cmd.tag, b'Operation timed out.',
                                       ResponseCode.of(b'TIMEOUT'))
                     await self.write_response(resp)
-                except (CancelledError, ConnectionError, EOFError):
+                except (ConnectionError, EOFError):
+                    break  # the client is gone, nobody to say BYE to
+                except CancelledError:
                     await self.send_error_disconnect()
                     break
                 except Exception:
